@@ -2,6 +2,7 @@ package main
 
 import (
 	"fmt"
+	"go/ast"
 	"go/token"
 	"go/types"
 	"sort"
@@ -738,13 +739,22 @@ func (e *fnEnc) loopEnv(li *loopInfo, phiVal func(*ssa.Phi) Term, heap heapState
 			continue
 		}
 		for _, in := range b.Instrs {
-			phi, ok := in.(*ssa.Phi)
-			if !ok {
-				break
-			}
-			if phi.Comment != "" {
-				if ts, ok := e.val[phi]; ok && len(ts) == 1 {
-					vars[phi.Comment] = ts[0]
+			switch in := in.(type) {
+			case *ssa.Phi:
+				if in.Comment != "" {
+					if ts, ok := e.val[in]; ok && len(ts) == 1 {
+						vars[in.Comment] = ts[0]
+					}
+				}
+			case *ssa.DebugRef:
+				// a source-level local bound to an SSA value
+				if id, ok := in.Expr.(*ast.Ident); ok && !in.IsAddr {
+					if _, isParam := e.params[id.Name]; isParam {
+						continue
+					}
+					if ts, ok := e.val[in.X]; ok && len(ts) == 1 && ts[0].Sort != "?addr" {
+						vars[id.Name] = ts[0]
+					}
 				}
 			}
 		}
@@ -770,6 +780,18 @@ func (e *fnEnc) loopEnv(li *loopInfo, phiVal func(*ssa.Phi) Term, heap heapState
 			vars[phi.Comment] = t
 		}
 		vars["$"+phi.Name()] = t
+	}
+	// range-over-slice loops: the ranged slice is `rangeslice`
+	if last, ok := li.header.Instrs[len(li.header.Instrs)-1].(*ssa.If); ok {
+		if cmp, ok := last.Cond.(*ssa.BinOp); ok {
+			if call, ok := cmp.Y.(*ssa.Call); ok {
+				if b, ok := call.Call.Value.(*ssa.Builtin); ok && b.Name() == "len" {
+					if ts, ok := e.val[call.Call.Args[0]]; ok && len(ts) == 1 {
+						vars["rangeslice"] = ts[0]
+					}
+				}
+			}
+		}
 	}
 	env.vars = vars
 	env.heap = heap
